@@ -367,74 +367,46 @@ func recheck(oracle string, ops, res []string) (bool, string) {
 }
 
 // classify names the known-finding class: the negation of a hypothesis of the
-// partial theorems (AliasFree / BundleFree), per clause.
+// partial theorem of the clause (Props/C06.lean): terminates — AliasFree (and
+// BundleFree); E1, T2 — AliasFree; E2 — OptPlain, AliasFree; E4 — LatestLast, AliasFree.
 func classify(oracle string, ops, res []string) string {
 	if len(ops) != 1 {
 		return ""
 	}
-	cd, err := decodeCase(ops[0], res[0])
+	f := strings.Fields(ops[0])
+	if len(f) != 6 {
+		return ""
+	}
+	h, err := hypsOf(f[2], f[3])
 	if err != nil {
 		return ""
 	}
 	switch oracle {
 	case "terminates":
-		if cd.u.HasAlias() {
+		if !h.AliasFree {
 			return "F-C04-npm-alias-cycle"
 		}
-		if cd.u.HasBundle() {
+		if !h.BundleFree {
 			return "F-C04-npm-bundle-cycle"
 		}
 	case "E4":
-		if !latestLast(ops[0]) {
+		if !h.LatestLast {
 			return "F-C06-latest-prerelease"
 		}
-		if cd.u.HasAlias() {
+		if !h.AliasFree {
 			return "F-C06-alias-wrongpkg"
 		}
-	case "E1", "E2", "T2":
-		if cd.u.HasAlias() {
+	case "E2":
+		if !h.OptPlain {
+			return "F-C06-optpeer-shadow"
+		}
+		if !h.AliasFree {
+			return "F-C06-alias-wrongpkg"
+		}
+	case "E1", "T2":
+		if !h.AliasFree {
 			return "F-C06-alias-wrongpkg"
 		}
 	}
 	return ""
-}
-
-// latestLast mirrors DepsDev.Props.C06.LatestLast on the op line's match table:
-// in every row of client.MatchingVersions answers, if the package's single
-// `latest` version (the row for the requirement "latest", index 4) occurs in
-// the row then it is the row's last element.
-func latestLast(op string) bool {
-	f := strings.Fields(op)
-	if len(f) < 4 {
-		return true
-	}
-	type row struct {
-		pkg, req string
-		vs       []string
-	}
-	var rows []row
-	latest := map[string]string{}
-	for _, rec := range strings.Split(f[3], ";") {
-		p := strings.Split(rec, ":")
-		if len(p) != 4 || p[0] != "m" || p[3] == "!" || p[3] == "_" {
-			continue
-		}
-		vs := strings.Split(p[3], ",")
-		rows = append(rows, row{p[1], p[2], vs})
-		if p[2] == "4" && len(vs) == 1 {
-			latest[p[1]] = vs[0]
-		}
-	}
-	for _, r := range rows {
-		l, ok := latest[r.pkg]
-		if !ok {
-			continue
-		}
-		for _, v := range r.vs {
-			if v == l && r.vs[len(r.vs)-1] != l {
-				return false
-			}
-		}
-	}
-	return true
 }
